@@ -82,20 +82,19 @@ def parseExp : Str → Option (Option (Char × Sign × Str))
       else none
     else none
 
-/-- full match of the guard regex (ASCII digits) -/
-def parseDec (s : Str) : Option Lit :=
-  let sg := (takeSign s).1
-  let r := (takeSign s).2
-  let ip := r.takeWhile isDigit
-  match r.dropWhile isDigit with
+/-- what may follow the leading digits `ip`: `\.\d*` (or `\.\d+` when there were no leading digits), then the exponent -/
+def parseTail (sg : Sign) (ip : Str) : Str → Option Lit
+  | [] => if ip = [] then none else some ⟨sg, ip, false, [], none⟩
   | c :: r2 =>
     if c = '.' then
-      let fp := r2.takeWhile isDigit
-      if ip = [] ∧ fp = [] then none
-      else (parseExp (r2.dropWhile isDigit)).map (fun e => ⟨sg, ip, true, fp, e⟩)
+      if ip = [] ∧ r2.takeWhile isDigit = [] then none
+      else (parseExp (r2.dropWhile isDigit)).map (fun e => ⟨sg, ip, true, r2.takeWhile isDigit, e⟩)
     else if ip = [] then none
     else (parseExp (c :: r2)).map (fun e => ⟨sg, ip, false, [], e⟩)
-  | [] => if ip = [] then none else some ⟨sg, ip, false, [], none⟩
+
+/-- full match of the guard regex (ASCII digits) -/
+def parseDec (s : Str) : Option Lit :=
+  parseTail (takeSign s).1 ((takeSign s).2.takeWhile isDigit) ((takeSign s).2.dropWhile isDigit)
 
 /-- `numeric_literal_regex.fullmatch(s) is not None` -/
 def isPlainDec (s : Str) : Bool := (parseDec s).isSome
@@ -127,8 +126,10 @@ def intMaxStrDigits : Nat := 4300
 
 def inInt64 (v : Int) : Bool := decide (-(2 : Int) ^ 63 ≤ v) && decide (v ≤ (2 : Int) ^ 63 - 1)
 
-/-- smallest magnitude that round-to-nearest-even sends to infinity in binary64 -/
-def overflowThreshold : Nat := 2 ^ 1024 - 2 ^ 970
+/-- smallest magnitude that round-to-nearest-even sends to infinity in binary64: `2^1024 - 2^970` (written out so that
+`decide` does not have to evaluate a large power; equality with the formula is proved in LasioProofs) -/
+def overflowThreshold : Nat :=
+  179769313486231580793728971405303415079934132710037826936173778980444968292764750946649017977587207096330286416692887910946555547851940402630657488671505820681908902000708383676273854845817711531764475730270069855571366959622842914819860834936475292719074168444365510704342711559699508093042880177904174497792
 
 /-- does `mant * 10 ^ e` round to a finite binary64, given `mant < 10 ^ nd` (`nd` = number of digit characters).
 The shortcuts (`e > 310`, `-e ≥ nd`) keep huge exponents such as `1e999999999` computable; they are proved equal to
